@@ -58,6 +58,12 @@ def cases(tier, seed):
                         yield dict(cv="kfold", layout=[nbx, nby], occ=occ, spec="shape", rep="F")
                         # parameters assigned as attributes after construction with other values
                         yield dict(cv="kfold", layout=[nbx, nby], occ=occ, spec="shape", route="attr")
+                        # non-square blocks; tiny blocks far from the origin
+                        for rep in ("aniso", "fine"):
+                            for spk in ("spacing", "shape"):
+                                yield dict(cv="kfold", layout=[nbx, nby], occ=occ, spec=spk, rep=rep)
+                                if max(occ) <= 2:
+                                    yield dict(cv="shuffle", layout=[nbx, nby], occ=occ, spec=spk, rep=rep)
                     if ncell <= (4 if tier == "quick" else 6) and (tier == "quick" or max(occ) <= 3):
                         yield dict(cv="shuffle", layout=[nbx, nby], occ=occ, spec="shape")
     yield dict(cv="badX", layout=[2, 2], occ=[1, 1, 1, 1], spec="shape")
@@ -137,6 +143,15 @@ def run(case, rec):
             spec = dict(spacing=20)
     elif rep == "F":
         X = np.asfortranarray(X)
+    elif rep == "aniso":
+        # blocks that are not square, given as spacing=(s_north, s_east) with s_north != s_east (seed C11-10)
+        X = np.column_stack([e * 2.5, n])
+        spec = dict(spacing=(1.0, 2.5)) if case["spec"] == "spacing" else spec
+    elif rep == "fine":
+        # millimetre blocks at coordinates of a million (exactly representable: powers of two): the ratio coordinate / block size is
+        # 2^30; nearest-centre searches that expand |x - c|^2 lose the blocks there (seed C11-9)
+        X = np.column_stack([e * 2.0 ** -10 + 2.0 ** 20, n * 2.0 ** -10 - 2.0 ** 20])
+        spec = dict(spacing=2.0 ** -10) if case["spec"] == "spacing" else spec
     rec.trivial = not (nocc >= 3 and len(set(pop.values())) > 1)
     if case["cv"] == "badX":
         rec.trivial = True
